@@ -446,6 +446,63 @@ def _run_vec2(case):
     return {"violations": v, "fingerprint": fp("vec2", et, term, want), "nontrivial": True, "outcome": "agree" if not v else "violation", "transitions": 1}
 
 
+def _interp_cases(tier):
+    """coefficients brought to the Gauss points with Field.Interpolate(nodal values): nodal data with 1, 2, 3 components per node (node-major,
+    the layout of every solution vector of the library) on renumbered meshes, used as the density of a linear form"""
+    ets = ["SEG3", "TRI3", "TRI6", "QUAD4", "QUAD8", "TETRA4", "HEXA8", "PRISM6"] if tier == "quick" else list(Z.ALL_TYPES)
+    return [{"kind": "interp", "elemType": et, "ncomp": n, "matrixType": mtn} for et in ets for n in (1, 2, 3) for mtn in MATRIX_TYPES]
+
+
+def _run_interp(case):
+    from EasyFEA.FEM import Field, LinearForm, Operators
+
+    et, ncomp, mtn = case["elemType"], case["ncomp"], case["matrixType"]
+    key = dict(kind="interp", elemType=et, ncomp=ncomp, matrixType=mtn)
+    zm = _zoo(et, "affine")
+    zm = zm.renumbered(rng("c13interp", et).permutation(zm.Nn))
+    mesh = zm.build(with_boundary=False)
+    g = mesh.groupElem
+    mt = _matrix_type(mtn)
+    r = rng("c13interp", et, ncomp)
+    A = r.uniform(-1.0, 1.0, size=(ncomp, 3))
+    c = r.uniform(0.5, 1.5, size=ncomp)
+    X = np.asarray(mesh.coord, dtype=float)
+    nodal = X @ A.T + c                               # (Nn, ncomp): a different affine function per component
+    fld = Field(g, 1, mt)
+    v = []
+    got = np.asarray(fld.Interpolate(nodal.ravel()), dtype=float)   # node-major vector, as Solve() returns and add_* accept
+    gx = np.asarray(g.Get_GaussCoordinates_e_pg(mt), dtype=float)
+    want = gx @ A.T + c                               # isoparametric interpolation reproduces affine functions
+    nops = 2
+    if got.shape != want.shape:
+        v.append(viol("interpolate_shape", f"Field.Interpolate of {ncomp}-component nodal data on {et}/{mtn}: shape {got.shape}, expected {want.shape}", **key))
+    else:
+        err = float(np.abs(got - want).max() / np.abs(want).max())
+        if err > 1e-11:
+            v.append(viol("interpolate_value", f"Field.Interpolate of {ncomp}-component nodal data (node-major) on {et}/{mtn}: values at the Gauss points differ "
+                                               f"from the affine functions the data samples, rel err {err:.2e}", **key))
+    # the interpolated data as the density of a linear form on a field with as many components, against the built-in Linear.V
+    if not v and ncomp <= max(1, g.dim):   # Field(g, dof_n) demands dof_n <= inDim
+        fv = Field(g, ncomp, mt)
+        try:
+            form = LinearForm(lambda w: w.dot(fv.Interpolate(nodal.ravel())) if ncomp > 1 else fv.Interpolate(nodal.ravel()) * w)
+            L = np.asarray(form.Integrate_e(fv), dtype=float)[:, :, 0]
+            if ncomp == 1:
+                oracle = np.asarray(Operators.Linear.V(g, want[..., 0], 1, mt), dtype=float).reshape(L.shape)
+            else:
+                oracle = sum(np.asarray(Operators.Linear.V(g, want[..., d], ncomp, mt), dtype=float)[:, :, d] for d in range(ncomp))
+            nops += 2
+            e2 = relerr(L, oracle)
+            if e2 > TOL:
+                v.append(viol("interpolate_form", f"linear form with an interpolated {ncomp}-component density on {et}/{mtn} differs from Linear.V of the same "
+                                                  f"density, rel err {e2:.2e}", **key))
+        except Exception as err:
+            v.append(viol("form_raises", f"linear form with an interpolated {ncomp}-component density on {et}/{mtn}: {type(err).__name__}: {str(err)[:200]}",
+                          error=type(err).__name__, **key))
+    return {"violations": v, "fingerprint": fp("interp", et, ncomp, mtn, want), "nontrivial": True, "outcome": "agree" if not v else v[0]["check"],
+            "transitions": nops}
+
+
 def _normalmass_cases(tier):
     """built-in MassAlongNormal on CURVED faces (the normal varies inside an element) against the user form coef (u.n)(v.n)"""
     return [{"kind": "normalmass", "elemType": et, "coef": ck} for et in ("QUAD8", "QUAD9", "TRI6", "QUAD4") for ck in ("const", "elem")]
@@ -527,7 +584,7 @@ def _run_normalmass(case):
 
 def cases(tier, seed):
     out = (_single_cases(tier) + _pair_cases(tier) + _linear_cases(tier) + _assemble_cases(tier) + _simu_cases(tier) + _nonsym_cases(tier)
-           + _moved_cases(tier) + _vec2_cases(tier) + _normalmass_cases(tier))
+           + _moved_cases(tier) + _vec2_cases(tier) + _normalmass_cases(tier) + _interp_cases(tier))
     # ordering only (the set is unchanged): the runner hands out chunks of 8 consecutive cases; deal the cases, longest first,
     # round-robin into the chunks so that every chunk costs about the same, and put the cheap ones first inside a chunk
     out.sort(key=lambda c: -_est(c))
